@@ -412,6 +412,18 @@ impl Typer
 			{
 				continue;
 			}
+			else if x.is_slice_pointer()
+			{
+				// A slice pointer is not stored behind an address of its own.
+				let error = Error::AddressOfTemporaryAddress {
+					location: reference.location.clone(),
+					location_of_unaddressed: reference
+						.location_of_unaddressed
+						.clone(),
+					type_of_unaddressed: x,
+				};
+				return Some(Err(Poison::Error(error)));
+			}
 			x = ValueType::Pointer {
 				deref_type: Box::new(x),
 			};
